@@ -884,6 +884,7 @@ func TestVS_Session(t *testing.T) {
 	if job.Staged && len(res.Violations) == 0 {
 		ssStaged(t, job.QCap, res)
 		ssStagedCorrupt(t, job.QCap, res)
+		ssStagedBacklog(t, res)
 	}
 	// seeded random histories: any applicable action, more streams, no spec expectation (oracles only)
 	rng := rand.New(rand.NewSource(job.Random.Seed))
@@ -1194,4 +1195,87 @@ func ssStagedCorrupt(t *testing.T, qcap int, res *ssResult) {
 		}
 	}
 	res.Staged = append(res.Staged, name+": reader got exactly the good messages, ledger exact, free lists intact, foreign buffers untouched")
+}
+
+// ssStagedBacklog: magnitudes the small TLC constants do not reach. One polling round consumes a backlog of N elements
+// (N up to 5000 with the default-sized queue of 8192: the consumer was held up while the producer kept flushing), the
+// consumer goes idle, the producer enqueues once more: the element must be notified and consumed (C05), every message
+// arrives in order (C04/C07), every buffer comes back (C09).
+func ssStagedBacklog(t *testing.T, res *ssResult) {
+	for _, n := range []int{300, 5000} {
+		name := fmt.Sprintf("backlog/%d-elements-in-one-polling-round", n)
+		viol := func(prop, kind, detail string) {
+			res.Violations = append(res.Violations, ssViolation{Property: prop, Kind: kind, Detail: name + ": " + detail, Schedule: "staged " + name, QCap: 8192, NStreams: 1})
+		}
+		pair, err := vpNewPair(vpConfig{Sizes: []uint32{4}, Percents: []uint32{100}, MemSize: 4096 + (n+64)*(4+bufferHeaderSize), QueueCap: 8192})
+		if err != nil {
+			t.Fatal(err)
+		}
+		ok := func() bool {
+			defer pair.destroy()
+			vsReset(vsOff)
+			pair.newStreamsB = nil
+			sA, _ := pair.A.OpenStream()
+			sA.BufferWriter().WriteBytes([]byte{1, 2, 3})
+			sA.Flush(false)
+			pair.settle()
+			if len(pair.newStreamsB) == 0 {
+				res.Staged = append(res.Staged, name+": setup failed")
+				return true
+			}
+			sB := pair.newStreamsB[0]
+			read3 := func(step string, want []byte) bool {
+				b, err := sB.BufferReader().ReadBytes(3)
+				if err != nil || len(b) != 3 || b[0] != want[0] || b[1] != want[1] || b[2] != want[2] {
+					viol("C07", "wrong-data", fmt.Sprintf("%s: the reader expected % x and got % x, %v", step, want, b, err))
+					return false
+				}
+				sB.BufferReader().ReleasePreviousRead()
+				return true
+			}
+			if !read3("first message", []byte{1, 2, 3}) {
+				return false
+			}
+			for i := 0; i < n; i++ {
+				sA.BufferWriter().WriteBytes([]byte{byte(i), byte(i >> 8), 0x5a})
+				if err := sA.Flush(false); err != nil {
+					res.Staged = append(res.Staged, fmt.Sprintf("%s: flush %d: %v", name, i, err))
+					return true
+				}
+			}
+			pair.settle() // one notification was written for the whole backlog: one polling round consumes it
+			for i := 0; i < n; i++ {
+				if !read3(fmt.Sprintf("message %d of the backlog", i), []byte{byte(i), byte(i >> 8), 0x5a}) {
+					return false
+				}
+			}
+			// the consumer is idle now; one more element
+			sA.BufferWriter().WriteBytes([]byte{7, 7, 7})
+			if err := sA.Flush(false); err != nil {
+				res.Staged = append(res.Staged, fmt.Sprintf("%s: last flush: %v", name, err))
+				return true
+			}
+			pair.settle()
+			q := pair.A.queueManager.sendQueue
+			if sz := q.size(); sz != 0 {
+				viol("C05", "stranded", fmt.Sprintf("after a polling round that consumed %d elements the consumer went idle; the next Flush succeeded, every notification written has been handled, and %d element(s) are left in the queue (working flag %d, socket events pending %d)", n, sz, *q.workingFlag, pair.connA.pending()+pair.connB.pending()))
+				return false
+			}
+			if !read3("message after the backlog", []byte{7, 7, 7}) {
+				return false
+			}
+			sA.Close()
+			sB.Close()
+			pair.settle()
+			if used := pair.inUse(pair.A); used != 0 {
+				viol("C09", "leak", fmt.Sprintf("both ends closed and settled, %d buffer(s) still allocated", used))
+				return false
+			}
+			return true
+		}()
+		if !ok {
+			return
+		}
+		res.Staged = append(res.Staged, name+": all delivered in order, the element after the backlog was notified, all buffers back")
+	}
 }
